@@ -363,12 +363,24 @@ def h(c):
     return c.hex()
 
 
+def conflicts(p, cur):
+    """p cannot be created while cur holds a file that is one of p's directories, or a file below p taken as a directory"""
+    return any(p.startswith(q + '/') or q.startswith(p + '/') for q in cur)
+
+
 def gen_history(rng, modify=False):
     pool = rng.sample(TOP, rng.randint(1, 5)) + rng.sample(NESTED, rng.randint(0, 3))
+    if rng.random() < 0.35:
+        # a name that is a file at one time and a directory at another (delete `sub`, add `sub/x.txt`):
+        # a row whose path has become a directory is the row of a file that no longer exists
+        pool = [q for q in pool if not q.startswith('sub')] + ['sub', rng.choice(['sub/x.txt', 'sub/deep/z.txt'])]
     cont = list(CONTENTS[:6]) + [bytes(rng.randrange(256) for _ in range(rng.choice([1, 2, 9])))]
     if rng.random() < 0.05:
         cont.append(CONTENTS[6])
-    tree = {p: rng.choice(cont) for p in pool if rng.random() < 0.5}
+    tree = {}
+    for p in pool:
+        if rng.random() < 0.5 and not conflicts(p, tree):
+            tree[p] = rng.choice(cont)
     cur = dict(tree)
     everp = set(cur)
     ops = []
@@ -376,7 +388,7 @@ def gen_history(rng, modify=False):
     for _ in range(n):
         x = rng.random()
         if x < 0.27:
-            absent = [p for p in pool if p not in cur]
+            absent = [p for p in pool if p not in cur and not conflicts(p, cur)]
             if modify and cur and rng.random() < 0.5:
                 p = rng.choice(sorted(cur))                     # in-place modification (labelled stream only)
             elif absent:
@@ -396,7 +408,7 @@ def gen_history(rng, modify=False):
             if rng.random() < 0.6:
                 t = ''
             else:
-                tops = [p for p in pool if '/' not in p]
+                tops = [p for p in pool if '/' not in p and not any(q.startswith(p + '/') for q in cur)]   # never a name that currently is a directory: sub-folder input is outside the property
                 live = [p for p in tops if p in cur]
                 if live and rng.random() < 0.85:
                     t = rng.choice(live)
@@ -409,6 +421,9 @@ def gen_history(rng, modify=False):
 
 
 CORPUS = [
+    # a deleted file whose name is taken over by a directory: its row must go (the path is not a file any more)
+    {'tree': {'sub': '41', 'keep.txt': '42'}, 'ops': [['del', 'sub', ''], ['add', 'sub/x.txt', '43'], ['ar', '', '']]},
+    {'tree': {'sub': '41'}, 'ops': [['del', 'sub', ''], ['add', 'sub/deep/z.txt', '43'], ['r', '', '']]},
     # single-file remove must keep the rows of the other files (fixed defect)
     {'tree': {'a.txt': '41', 'b.txt': '4242', 'sub/x.txt': '58'}, 'ops': [['r', 'a.txt', '']]},
     {'tree': {'a.txt': '41', 'b.txt': '4242'}, 'ops': [['del', 'b.txt', ''], ['ar', 'a.txt', '']]},
